@@ -92,6 +92,12 @@ VARIANTS = [
         "                err[err > np.pi] = -2 * np.pi + err[err > np.pi]\n                err[err < -np.pi] = 2 * np.pi + err[err < -np.pi]\n",
         "                err[err > np.pi] -= 2 * np.pi\n                err[err < -np.pi] -= 2 * np.pi\n")]),
     # benign
+    dict(name="seed4-yaw-wrap-by-fmod-keeps-sign-of-dividend", kind="break", rule="R-ANGLEWRAP", edits=[(AB,
+        '                err[err > np.pi] = -2 * np.pi + err[err > np.pi]\n                err[err < -np.pi] = 2 * np.pi + err[err < -np.pi]\n',
+        '                err = np.fmod(err + np.pi, 2 * np.pi) - np.pi\n')]),
+    dict(name="yaw-wrap-by-python-modulo", kind="benign", edits=[(AB,
+        '                err[err > np.pi] = -2 * np.pi + err[err > np.pi]\n                err[err < -np.pi] = 2 * np.pi + err[err < -np.pi]\n',
+        '                err = (err + np.pi) % (2 * np.pi) - np.pi\n')]),
     dict(name="scene-none-test-negated", kind="benign", edits=[(A3, "        if scene is not None:\n            kwargs.update({\"scene\": scene})", "        if not (scene is None):\n            kwargs.update({\"scene\": scene})")]),
     dict(name="yaw-wrap-inplace", kind="benign", edits=[(AB,
         "                err[err > np.pi] = -2 * np.pi + err[err > np.pi]\n                err[err < -np.pi] = 2 * np.pi + err[err < -np.pi]\n",
